@@ -3,7 +3,7 @@ from sx.harness import Case
 
 PROPERTY = "C44"
 FUNCTIONS = ["paramiko.auth_strategy.AuthStrategy.authenticate"]
-STUBS = ["AuthSource.authenticate: returns a token or raises one of 6 exception classes (two of them carrying the server's allowed-types list), chosen by a solver variable per source",
+STUBS = ["AuthSource.authenticate: returns a token or raises one of 7 exception kinds (two carrying the server's allowed-types list, one without any argument), chosen by a solver variable per source",
          "transport: opaque token"]
 ASSUMPTIONS = ["sources raise Exception subclasses (BaseException such as KeyboardInterrupt is not a failure outcome)"]
 EXPLANATION = "Each source's outcome is a solver-chosen value; the number of sources is a solver-chosen length."
@@ -13,7 +13,8 @@ class _Boom(Exception):
     pass
 
 
-OUTCOMES = ["ok", "ValueError", "SSHException", "AuthenticationException", "custom", "BadAuthenticationType", "PartialAuthentication"]
+OUTCOMES = ["ok", "ValueError", "SSHException", "AuthenticationException", "custom", "BadAuthenticationType", "PartialAuthentication",
+            "EOFError-without-arguments"]
 
 
 def strat_case(maxn):
@@ -31,6 +32,8 @@ def strat_case(maxn):
                 e = BadAuthenticationType("fail %d" % i, ["publickey", "password"])
             elif kind == "PartialAuthentication":
                 e = PartialAuthentication(["password"])
+            elif kind == "EOFError-without-arguments":
+                e = EOFError()                      # e.g. the connection dropped: no message, empty args
             else:
                 e = excs[kind]("fail %d" % i)
             raised_objs[i] = e
@@ -82,4 +85,4 @@ def strat_case(maxn):
 
 
 def cases(tier):
-    return [strat_case(4 if tier == "quick" else 5)]
+    return [strat_case(3 if tier == "quick" else 5)]
